@@ -223,9 +223,11 @@ def podVolumeTerms (s : Scenario) (p : Pod) : List (List (List KExpr)) :=
       if c.volumeName != "" then (match s.pv? c.volumeName with | some pv => pv.terms | none => [])
       else (match s.storageClass? c.storageClass with | some sc => sc.topologies | none => []))
 
-/-- `tryVolumeAlternative` up to the topology step: the node's label requirements narrowed by the pod's requirements must be
-    compatible with the alternative (no undefined key allowed) -/
+/-- `tryVolumeAlternative` up to the topology step: the node's OWN label requirements must be compatible with the alternative
+    (since fix 08953e7af in /repo: a pod requirement that merely tolerates a label being absent must not make the key look
+    defined), and so must the label requirements narrowed by the pod's requirements (no undefined key allowed in either) -/
 def volAltOK (n : ExNode) (p : PodD) (alt : List KExpr) : Bool :=
+  (labelReqs n.labels).compatible (podReqs alt) [] &&
   (Reqs.add (labelReqs n.labels) ((podReqs p.exprs).map (·.2))).compatible (podReqs alt) []
 
 /-- `ExistingNode.CanAdd` with the volume alternatives: SOME alternative must be compatible -/
